@@ -16,7 +16,7 @@ Cn == {"a", "b", "c"}
 In == {"i1", "i2"}
 Types == {"T1", "T2"}
 Dflts == {"none", "d1"}
-Acts  == {"NO ACTION", "CASCADE"}
+Acts  == {"NO ACTION", "CASCADE", "RESTRICT"}
 NoCol == [type |-> "-", null |-> FALSE, dflt |-> "none"]
 NoIdx == [name |-> "-", parts |-> <<>>, unique |-> FALSE]
 NoFk  == [name |-> "-", col |-> "-", ref |-> "-", refcol |-> "-", onupd |-> "-", ondel |-> "-"]
